@@ -347,6 +347,20 @@ func Ops(t int) []OpGen {
 				}}
 			}},
 			addUserProp,
+			{"ReapplyCurrent", func(r *gen.RNG, zero bool) Op {
+				// configuration applied again: every byte-slice and string setter
+				// is called with what its accessor returns right now
+				return Op{"ReapplyCurrent", "", func(p mq.Packet) {
+					x := c(p)
+					x.SetPassword(x.Password())
+					x.SetAuthData(x.AuthData())
+					x.SetUsername(x.Username())
+					x.SetClientID(x.ClientID())
+					x.SetAuthMethod(x.AuthMethod())
+					x.SetKeepAlive(x.KeepAlive())
+					x.SetCleanStart(x.CleanStart())
+				}, func(a *ref.Packet) {}}
+			}},
 		}
 	case ref.TConnAck:
 		c := func(p mq.Packet) *mq.ConnAck { return p.(*mq.ConnAck) }
@@ -426,6 +440,20 @@ func Ops(t int) []OpGen {
 				return Op{"SetPayload", clip(string(v)), func(p mq.Packet) { c(p).SetPayload(v) }, func(a *ref.Packet) { a.Payload = append([]byte(nil), v...) }}
 			}},
 			addUserProp,
+			{"ReapplyCurrent", func(r *gen.RNG, zero bool) Op {
+				return Op{"ReapplyCurrent", "", func(p mq.Packet) {
+					x := c(p)
+					x.SetPayload(x.Payload())
+					x.SetCorrelationData(x.CorrelationData())
+					x.SetTopicName(x.TopicName())
+					x.SetResponseTopic(x.ResponseTopic())
+					x.SetContentType(x.ContentType())
+					x.SetQoS(x.QoS())
+					x.SetRetain(x.Retain())
+					x.SetDuplicate(x.Duplicate())
+					x.SetPacketID(x.PacketID())
+				}, func(a *ref.Packet) {}}
+			}},
 		}
 	case ref.TPubAck, ref.TPubRec, ref.TPubRel, ref.TPubComp:
 		return []OpGen{setPacketID, setReasonCode, setReasonString, addUserProp}
@@ -459,7 +487,18 @@ func Ops(t int) []OpGen {
 						fs = append(fs, tf)
 					}
 				}
-				return Op{"AddFilters", fmt.Sprintf("%d filters", n), func(p mq.Packet) { c(p).AddFilters(fs...) }, func(a *ref.Packet) { a.Subs = append(a.Subs, subs...) }}
+				reuse := r.Bool()
+				return Op{"AddFilters", fmt.Sprintf("%d filters", n), func(p mq.Packet) {
+					c(p).AddFilters(fs...)
+					if reuse {
+						// the caller refills its own TopicFilter variables for the
+						// next packet; what was added must not follow
+						for i := range fs {
+							fs[i].SetFilter("zz")
+							fs[i].SetOptions(0)
+						}
+					}
+				}, func(a *ref.Packet) { a.Subs = append(a.Subs, subs...) }}
 			}},
 			addUserProp,
 		}
